@@ -3,7 +3,7 @@
 class LiquidCrystal : public Print { public: int c = 0, r = 0, cols = 16, rows = 2; std::vector<std::string> cells;
   LiquidCrystal(int, int, int, int, int, int) {} LiquidCrystal(int, int, int, int, int, int, int) {}
   void begin(int cc, int rr) { printf("LB:%d:%d\n", cc, rr); cols = cc; rows = rr; cells.assign(rr, std::string(cc, ' ')); }
-  void clear() { for (auto &x : cells) x.assign(cols, ' '); c = r = 0; } void home() { c = r = 0; }
+  void clear() { for (auto &x : cells) x.assign(cols, ' '); c = r = 0; dump(); } void home() { c = r = 0; }
   void display() {} void noDisplay() {} void setCursor(int cc, int rr) { c = cc; r = rr; }
   void createChar(int, uint8_t *) {}
   void put(const std::string &s) { for (char ch : s) { if (r >= 0 && r < rows && c >= 0 && c < cols) cells[r][c] = ch; else printf("LCD-OUT-OF-RANGE:%d:%d\n", c, r); c++; } dump(); }
